@@ -1,6 +1,7 @@
 // C15: every client request is answered by exactly its own response (real Experimental::Client
 //      against a scripted raw server written here), incl. the client's emitted requests (C05 part).
 // C02: what one side serialises the other parses back unchanged (real client <-> real endpoint).
+#define LV_DEFINE_INTERPOSERS 1
 #include "live.h"
 #include "msggen.h"
 #include <pistache/client.h>
@@ -471,7 +472,15 @@ static void run_c02(long cases) {
         if (in.rkind == 0) { int bl = r.chance(1, 5) ? 0 : r.range(1, 20000); in.rbody = mg::octets(r, bl, r.range(0, 3)); }
         else { int nchunks = r.range(0, 8); static const size_t SZ[] = {1, 15, 16, 255, 256, 4095, 4096, 65535, 65536}; for (int k = 0; k < nchunks; k++) { size_t c = r.chance(1, 2) ? r.pick(SZ) : (size_t)r.range(1, 3000); in.rchunks.push_back(c); in.rbody += mg::octets(r, (int)c, r.range(0, 3)); } }
         { std::lock_guard<std::mutex> g(g_im); g_intents[in.path] = &in; }
-        std::string wt = Json().num("i", idx).str("phase", "c02").str("method", Http::methodString(in.method)).str("path", in.path).num("query", (long long)in.query.size()).num("headers", (long long)in.headers.size()).num("cookies", (long long)in.cookies.size()).num("body", (long long)in.body.size())
+        // segmentation forced on both ends: every read of the server (request) and of the client (response) returns at most 1..cap bytes
+        static const int RCAPS[] = {0, 0, 0, 1, 2, 5, 23, 300, 2000};
+        int rcap = r.pick(RCAPS);
+#if LV_INTERPOSE
+        lv::ip().enabled = true; lv::ip().globalRecvCapMax = rcap;
+#else
+        rcap = 0;
+#endif
+        std::string wt = Json().num("i", idx).str("phase", "c02").num("read_cap", rcap).str("method", Http::methodString(in.method)).str("path", in.path).num("query", (long long)in.query.size()).num("headers", (long long)in.headers.size()).num("cookies", (long long)in.cookies.size()).num("body", (long long)in.body.size())
                              .num("response_code", in.code).str("response_kind", in.rkind ? "stream" : "fixed").num("response_body", (long long)in.rbody.size()).num("response_chunks", (long long)in.rchunks.size()).done();
         set_case(idx, wt);
         auto rb = client.get(base + in.path);
@@ -522,10 +531,14 @@ static void run_c02(long cases) {
             }
         }
         if (!key.empty()) viol(key, wt + " " + detail, Json().num("i", idx).str("phase", "c02").str("case", wt).str("detail", detail).done());
-        g_distinct.add(std::string(Http::methodString(in.method)) + "|" + std::to_string(in.query.size()) + "|" + std::to_string(in.headers.size()) + "|" + std::to_string(in.cookies.size()) + "|" + (in.body.empty() ? "0" : in.body.size() < 100 ? "s" : "L") + "|" + std::to_string(in.rkind) + "|" + std::to_string(in.rchunks.size()) + "|" + std::to_string(in.code / 100));
-        count("round_trips");
+        g_distinct.add(std::string(Http::methodString(in.method)) + "|" + std::to_string(in.query.size()) + "|" + std::to_string(in.headers.size()) + "|" + std::to_string(in.cookies.size()) + "|" + (in.body.empty() ? "0" : in.body.size() < 100 ? "s" : "L") + "|" + std::to_string(in.rkind) + "|" + std::to_string(in.rchunks.size()) + "|" + std::to_string(in.code / 100) + "|cap" + std::to_string(rcap));
+        count("round_trips"); if (rcap) count("round_trips_with_capped_reads");
         if (g_samples_left > 0 && (n % 61) == 5) { g_samples_left--; sample(wt); }
     }
+#if LV_INTERPOSE
+    g_counts["reads_cut_short"] += lv::ip().globalRecvCapped.load(); lv::ip().globalRecvCapMax = 0;
+    if (g_counts["round_trips_with_capped_reads"] > 0 && g_counts["reads_cut_short"] == 0) { fprintf(stderr, "harness failure: the recv interposer never cut a read short\n"); _exit(3); }
+#endif
     // boundary sweep: one streamed chunk of n bytes + a 4-byte tail chunk, n swept so that the end of a chunk's data (or the
     // middle of its CRLF) falls on every offset around the client's 4096-byte read boundary
     if (g_opts.shard == 0) {
